@@ -41,13 +41,12 @@ class HProp(Prop):
     components = H_COMPONENTS
     mode = 'h:none'
     mode_args = ''
-    quick_runs = 8
-    thorough_runs = 160
+    quick_runs = 12
+    thorough_runs = 400
     quick_wall = 35
     thorough_wall = 600
     cases_quick = 1000
     cases_thorough = 4000
-    idle_hook = False
     assumptions = ['cases are sampled, not enumerated; segmentations/schedules per case: all 2-way splits and byte-wise delivery for short '
                    'inputs plus seeded random ones', 'single process, single thread']
 
